@@ -10,10 +10,14 @@ import (
 	"sync"
 	"time"
 
+	"github.com/google/osv-scalibr/detector"
 	"github.com/google/osv-scalibr/extractor"
 	"github.com/google/osv-scalibr/extractor/filesystem"
+	"github.com/google/osv-scalibr/extractor/standalone"
+	scalibrfs "github.com/google/osv-scalibr/fs"
 	"github.com/google/osv-scalibr/inventory"
 	"github.com/google/osv-scalibr/log"
+	"github.com/google/osv-scalibr/packageindex"
 	"github.com/google/osv-scalibr/plugin"
 	"github.com/google/osv-scalibr/purl"
 	"github.com/google/osv-scalibr/stats"
@@ -174,3 +178,59 @@ func (c *Collector) AfterInodeVisited(p string) {
 func (c *Collector) AfterExtractorRun(name string, _ time.Duration, _ error) {
 	c.Rec.Add(Event{Kind: "after-extract", Ex: name})
 }
+
+// Det is a scripted detector.
+type Det struct {
+	N        string
+	Required []string
+	// Fn is the scripted behaviour; it receives the index it was run with.
+	Fn func(ctx context.Context, root *scalibrfs.ScanRoot, px *packageindex.PackageIndex) ([]*detector.Finding, error)
+}
+
+// Name implements plugin.Plugin.
+func (d *Det) Name() string { return d.N }
+
+// Version implements plugin.Plugin.
+func (d *Det) Version() int { return 1 }
+
+// Requirements implements plugin.Plugin.
+func (d *Det) Requirements() *plugin.Capabilities { return &plugin.Capabilities{} }
+
+// RequiredExtractors implements detector.Detector.
+func (d *Det) RequiredExtractors() []string { return d.Required }
+
+// Scan implements detector.Detector.
+func (d *Det) Scan(ctx context.Context, root *scalibrfs.ScanRoot, px *packageindex.PackageIndex) ([]*detector.Finding, error) {
+	return d.Fn(ctx, root, px)
+}
+
+// StEx is a scripted standalone extractor.
+type StEx struct {
+	N  string
+	Fn func(ctx context.Context, in *standalone.ScanInput) (inventory.Inventory, error)
+}
+
+// Name implements plugin.Plugin.
+func (e *StEx) Name() string { return e.N }
+
+// Version implements plugin.Plugin.
+func (e *StEx) Version() int { return 1 }
+
+// Requirements implements plugin.Plugin.
+func (e *StEx) Requirements() *plugin.Capabilities { return &plugin.Capabilities{} }
+
+// Extract implements standalone.Extractor.
+func (e *StEx) Extract(ctx context.Context, in *standalone.ScanInput) (inventory.Inventory, error) {
+	return e.Fn(ctx, in)
+}
+
+// ToPURL implements extractor.Extractor.
+func (e *StEx) ToPURL(p *extractor.Package) *purl.PackageURL {
+	if pu, ok := p.Metadata.(*purl.PackageURL); ok {
+		return pu
+	}
+	return &purl.PackageURL{Type: purl.TypeGeneric, Name: p.Name, Version: p.Version}
+}
+
+// Ecosystem implements extractor.Extractor.
+func (e *StEx) Ecosystem(*extractor.Package) string { return "generic" }
